@@ -3,7 +3,7 @@ import LyModel.Yin.LemmasTree
 set_option linter.unusedSimpArgs false
 set_option linter.unusedVariables false
 namespace LyModel.Yin
-open LyModel LyModel.Utf8 LyModel.Generated LyModel.XmlText
+open LyModel LyModel.Utf8 LyModel.Generated LyModel.XmlText LyModel.XmlLex
 
 theorem endOf_len (fmt : Bool) (level : Nat) (name : Bytes) (kids : List YStmt) :
     (printStmts fmt (incLevel level) kids).length + 2 ≤ (endOf fmt level name kids).length := by
